@@ -336,6 +336,7 @@ const (
 	zeTooDeep
 	zeRevisit   // second acyclic path to a loaded file: must NOT be an error
 	zeEmptyGlob // glob without matches: an error on the directive is tolerated, not required
+	zeFailDeep  // missing or oversized AND too deep: the property does not say which report wins
 )
 
 type zEvent struct {
@@ -380,16 +381,20 @@ func (r *zRef) visit(f int, stack []int) {
 				r.events = append(r.events, zEvent{zeRevisit, f, s, t})
 				continue
 			}
-			if ti < 0 {
-				r.events = append(r.events, zEvent{zeNotFound, f, s, t})
-				continue
-			}
-			if r.w.size(ti) > r.maxSize {
-				r.events = append(r.events, zEvent{zeTooLarge, f, s, t})
-				continue
-			}
 			depth := len(stack) // nesting depth of t; the root has depth 0
-			if (r.strict && depth >= r.limit) || (!r.strict && depth > r.limit) {
+			tooDeep := (r.strict && depth >= r.limit) || (!r.strict && depth > r.limit)
+			if ti < 0 || r.w.size(ti) > r.maxSize {
+				kind := zeNotFound
+				if ti >= 0 {
+					kind = zeTooLarge
+				}
+				if tooDeep {
+					kind = zeFailDeep
+				}
+				r.events = append(r.events, zEvent{kind, f, s, t})
+				continue
+			}
+			if tooDeep {
 				r.events = append(r.events, zEvent{zeTooDeep, f, s, t})
 				continue
 			}
@@ -483,17 +488,25 @@ type zKnown struct {
 	usedDiamond, usedNoRange, usedCycleKind bool
 }
 
-func zKindOK(ev int, k ErrorKind) bool {
+// zKindOK: does error e report an event of kind ev? A "cycle diagnostic" is what the user
+// sees as one: kind ErrorCycleDetected whose text is not the depth-limit message (the
+// repository has no dedicated kind for "too deep": its own test suite pins
+// ErrorCycleDetected + "include depth limit exceeded" for it, and the property does not
+// prescribe a kind for too-deep includes).
+func zKindOK(ev int, e LoadError) bool {
+	k := e.Kind
 	switch ev {
 	case zeCycle:
-		return k == ErrorCycleDetected
+		return k == ErrorCycleDetected && !zIsDepthMsg(e)
 	case zeNotFound:
 		return k == ErrorFileNotFound || k == ErrorReadError
 	case zeTooLarge:
 		return k == ErrorFileTooLarge
 	case zeTooDeep:
-		// no dedicated kind is documented; a cycle diagnostic it must not be
-		return k != ErrorCycleDetected && k != ErrorParseError
+		// no dedicated kind is documented; it must be recognisable as a depth report
+		return k != ErrorParseError && (k != ErrorCycleDetected || zIsDepthMsg(e))
+	case zeFailDeep:
+		return k == ErrorFileNotFound || k == ErrorReadError || k == ErrorFileTooLarge || (k == ErrorCycleDetected && zIsDepthMsg(e))
 	}
 	return false
 }
@@ -559,10 +572,10 @@ func zCompare(w *zWorld, root int, ref *zRef, res *ResolvedJournal, errs []LoadE
 		}
 		rng := w.slotRange(ev.node, ev.slot)
 		switch ev.kind {
-		case zeCycle, zeNotFound, zeTooLarge, zeTooDeep:
+		case zeCycle, zeNotFound, zeTooLarge, zeTooDeep, zeFailDeep:
 			hits := 0
 			for range paths {
-				hit := find(func(e LoadError) bool { return e.Range == rng && zContains(paths, e.Path) && zKindOK(ev.kind, e.Kind) })
+				hit := find(func(e LoadError) bool { return e.Range == rng && zContains(paths, e.Path) && zKindOK(ev.kind, e) })
 				if !hit && ev.kind == zeTooDeep && (kn.noRange || kn.cycleKind) {
 					// known findings: the depth error carries no range / is of the cycle kind
 					hit = find(func(e LoadError) bool {
@@ -571,7 +584,7 @@ func zCompare(w *zWorld, root int, ref *zRef, res *ResolvedJournal, errs []LoadE
 						}
 						unranged := e.Range != rng && e.Range == ast.Range{}
 						cyc := e.Kind == ErrorCycleDetected && zIsDepthMsg(e)
-						if (e.Range == rng || (kn.noRange && unranged)) && (zKindOK(ev.kind, e.Kind) || (kn.cycleKind && cyc)) {
+						if (e.Range == rng || (kn.noRange && unranged)) && (zKindOK(ev.kind, e) || (kn.cycleKind && cyc)) {
 							kn.usedNoRange = kn.usedNoRange || unranged
 							kn.usedCycleKind = kn.usedCycleKind || cyc
 							return true
@@ -595,7 +608,7 @@ func zCompare(w *zWorld, root int, ref *zRef, res *ResolvedJournal, errs []LoadE
 			if kn.diamond {
 				for range paths {
 					if find(func(e LoadError) bool {
-						return e.Range == rng && zContains(paths, e.Path) && e.Kind == ErrorCycleDetected
+						return e.Range == rng && zContains(paths, e.Path) && e.Kind == ErrorCycleDetected && !zIsDepthMsg(e)
 					}) {
 						kn.usedDiamond = true
 					}
@@ -607,7 +620,7 @@ func zCompare(w *zWorld, root int, ref *zRef, res *ResolvedJournal, errs []LoadE
 		if used[i] || e.Kind == ErrorParseError {
 			continue
 		}
-		if e.Kind == ErrorCycleDetected {
+		if e.Kind == ErrorCycleDetected && !zIsDepthMsg(e) {
 			return zSpuriousCycle
 		}
 		return zExtraError
